@@ -134,6 +134,35 @@ pub fn plan(tier: Tier) -> Plan {
             }));
         }
     }
+    p.units.push(unit("wide-nodes-with-strictly-increasing-values", "wide monotone".into(), move |st, rep| {
+        for n in [1usize, 2, 31, 32, 33, 34, 64, 128, 255, 256] {
+            for w in 1..=8usize {
+                for with_empty in [false, true] {
+                    for depth in 0..2usize {
+                        let base: u64 = 1u64 << (8 * (w - 1));
+                        let mut kvs: Vec<Kv> = vec![];
+                        if with_empty {
+                            kvs.push((vec![], base / 2 + 1));
+                        }
+                        for i in 0..n {
+                            let b = ((i * 256) / n) as u8;
+                            let mut k = if depth == 1 { vec![b'p'] } else { vec![] };
+                            k.push(b);
+                            kvs.push((k.clone(), base + 3 * i as u64));
+                            if i % 5 == 0 {
+                                k.push(b'z');
+                                kvs.push((k, base + 3 * i as u64 + 1));
+                            }
+                        }
+                        kvs.sort();
+                        st.nontrivial += 1;
+                        st.count("wide_monotone_cases", 1);
+                        do_case(&kvs, (3, 3), st, rep);
+                    }
+                }
+            }
+        }
+    }));
     for part in 0..8usize {
         p.units.push(unit("mixed-mid-size-family-monotone-members-(finite-family)", format!("mixed part {}", part), move |st, rep| {
             // members with value mode 5 have strictly increasing values
